@@ -188,7 +188,7 @@ def check_case(case):
     if isinstance(got, dict) and "$written" in got:
         # the sink must have written what a direct parse under v serializes to
         exp = json.loads(ref.serialize()) if not isinstance(ref, dict) else ref
-        if got["$written"] != exp:
+        if norm_random_ids(json.dumps(got["$written"])) != norm_random_ids(json.dumps(exp)):
             fails.append(("sink-wrote-other-interpretation", "%s wrote %s, direct parse(version=%r) serializes %s" % (entry, core.short(got["$written"], 250), v, core.short(exp, 250))))
         return fails
     if isinstance(ref, dict) or isinstance(got, dict):
